@@ -309,6 +309,32 @@ func checkC03(c *km.Ctx) {
 			}
 		}
 		if dur == nil {
+			// the request's values handed over as one record built here: the value put into its duration field
+			for _, a := range ci.Common().Args {
+				if durationFieldCount(a.Type()) != 1 {
+					continue
+				}
+				if ld, isLd := km.Unwrap(a).(*ssa.UnOp); isLd && ld.Op == token.MUL {
+					if al, isAl := ld.X.(*ssa.Alloc); isAl {
+						var val ssa.Value
+						nSt := 0
+						for _, ref := range *al.Referrers() {
+							if fa, isFA := ref.(*ssa.FieldAddr); isFA && km.NamedTypeOf(fa.Type().(*types.Pointer).Elem()) == "time.Duration" {
+								for _, r2 := range *fa.Referrers() {
+									if st, isSt := r2.(*ssa.Store); isSt && st.Addr == ssa.Value(fa) {
+										val, nSt = st.Val, nSt+1
+									}
+								}
+							}
+						}
+						if nSt == 1 {
+							dur = val
+						}
+					}
+				}
+			}
+		}
+		if dur == nil {
 			r.Add("R-C03-1", km.FuncName(h), "duration operand of "+km.NameOf(callee), posOf(c, ci), "a time.Duration operand", "none", false)
 			continue
 		}
@@ -587,6 +613,18 @@ func checkC03(c *km.Ctx) {
 				}
 			}
 			ok := dparam != nil && dur != nil && km.Unwrap(dur) == ssa.Value(dparam)
+			// the request's values handed in as one record: the duration field of that parameter, read as it is
+			if !ok && dparam == nil && dur != nil {
+				if base, _, isF := km.FieldOfLoad(km.Unwrap(dur)); isF {
+					b := km.Unwrap(base)
+					if o := km.CellOrigin(b); o != nil {
+						b = km.Unwrap(o)
+					}
+					if _, isP := b.(*ssa.Parameter); isP && durationFieldCount(b.Type()) == 1 {
+						ok = true
+					}
+				}
+			}
 			r.Add("R-C03-1", km.FuncName(fn), "duration passed through to "+short(n), posOf(c, ci), "the library receives exactly the handler's bounded duration", km.ValStr(dur), ok)
 		}
 	}
@@ -1392,4 +1430,22 @@ func checkCredentialIssueTime(c *km.Ctx, s *km.Sem, rule string) {
 		}
 		c.R.Add(rule, km.FuncName(upd), "a raised session keeps its authentication time", c.P.Pos(upd.Pos()), "the upgrade path signs session claims and nothing on it writes the iat claim (other than copying it)", found, resigns && bad == "")
 	}
+}
+
+// durationFieldCount: the number of time.Duration fields of a struct type (0 for anything else).
+func durationFieldCount(t types.Type) int {
+	if p, ok := t.Underlying().(*types.Pointer); ok {
+		t = p.Elem()
+	}
+	st, ok := t.Underlying().(*types.Struct)
+	if !ok {
+		return 0
+	}
+	n := 0
+	for i := 0; i < st.NumFields(); i++ {
+		if km.NamedTypeOf(st.Field(i).Type()) == "time.Duration" {
+			n++
+		}
+	}
+	return n
 }
